@@ -351,9 +351,9 @@ class Tr:
             return ("ite", self.cond(e.test, env, k), self.expr(e.body, env, k), self.expr(e.orelse, env, k))
         if isinstance(e, ast.Attribute):
             src = ast.unparse(e)
-            if src == "np.pi":
+            if src in ("np.pi", "math.pi"):
                 return ("pi",)
-            if src == "np.e":
+            if src in ("np.e", "math.e"):
                 return ("exp", ("lit", 1, 0))
             if isinstance(e.value, ast.Name) and e.value.id == "self":
                 return self.self_attr(e.attr, k, env)
@@ -394,8 +394,25 @@ class Tr:
             f = ast.unparse(e.func)
             if f.startswith("np.") and f[3:] in UFUNC and len(e.args) == 1 and not e.keywords:
                 return (UFUNC[f[3:]], self.expr(e.args[0], env, k))
-            if f in ("np.power",) and len(e.args) == 2:
-                return ("pow", self.expr(e.args[0], env, k), self.expr(e.args[1], env, k))
+            if f in ("np.power", "pow", "math.pow") and len(e.args) == 2:
+                l_, r_ = self.expr(e.args[0], env, k), self.expr(e.args[1], env, k)
+                if r_[0] == "lit" and r_[2] == 0 and abs(r_[1]) <= 12:
+                    return ("powi", l_, r_[1])          # same node as `x ** n`
+                return ("pow", l_, r_)
+            # other spellings of the same arithmetic (so that a refactor between them leaves the generated term unchanged)
+            if f in ("np.square",) and len(e.args) == 1 and not e.keywords:
+                return ("powi", self.expr(e.args[0], env, k), 2)
+            if f in ("np.absolute", "abs", "math.fabs") and len(e.args) == 1 and not e.keywords:
+                return ("abs", self.expr(e.args[0], env, k))
+            if f in ("np.negative",) and len(e.args) == 1 and not e.keywords:
+                return ("neg", self.expr(e.args[0], env, k))
+            if f in ("np.reciprocal",) and len(e.args) == 1 and not e.keywords:
+                return ("div", ("lit", 1, 0), self.expr(e.args[0], env, k))
+            if f in ("np.multiply", "np.add", "np.subtract", "np.divide", "np.true_divide") and len(e.args) == 2 and not e.keywords:
+                op_ = {"np.multiply": "mul", "np.add": "add", "np.subtract": "sub", "np.divide": "div", "np.true_divide": "div"}[f]
+                return (op_, self.expr(e.args[0], env, k), self.expr(e.args[1], env, k))
+            if f.startswith("math.") and f[5:] in UFUNC and len(e.args) == 1 and not e.keywords:
+                return (UFUNC[f[5:]], self.expr(e.args[0], env, k))
             if f == "np.where" and len(e.args) == 3:
                 return ("ite", self.cond(e.args[0], env, k), self.expr(e.args[1], env, k), self.expr(e.args[2], env, k))
             if f == "np.arange" and len(e.args) == 3 and not e.keywords:
